@@ -148,7 +148,7 @@ func checkC14(sc *Scenario, res *RunResult, t *Truth) []Violation {
 			break
 		}
 		switch c.Op {
-		case "update":
+		case "update", "reload":
 			n := 0
 			fmt.Sscanf(c.Desc[strings.LastIndexByte(c.Desc, ',')+1:], "%d", &n)
 			if n >= len(sc.Updates) {
@@ -326,7 +326,7 @@ func checkC14Launches(sc *Scenario, t *Truth) []Violation {
 	}
 	var ups []span
 	for _, c := range t.Calls {
-		if c.Client == "updater" && c.Op == "update" {
+		if c.Client == "updater" && (c.Op == "update" || c.Op == "reload") {
 			n := 0
 			fmt.Sscanf(c.Desc[strings.LastIndexByte(c.Desc, ',')+1:], "%d", &n)
 			if n < len(sc.Updates) {
@@ -578,7 +578,7 @@ func genC14(r *R, sc *Scenario, tier string) {
 		}
 		sc.Updates = append(sc.Updates, np)
 		at += Pick(r, 1500, 2000, 3000)
-		ops = append(ops, Op{AtMs: at, Op: "update", N: u})
+		ops = append(ops, Op{AtMs: at, Op: Pick(r, "update", "update", "reload"), N: u})
 		at += 1000
 		ops = append(ops, Op{AtMs: at, Op: "audit", Args: gone})
 		cur = np
